@@ -37,6 +37,7 @@ type ruModel struct {
 	aID    *types.Var
 	evals  []*kit.Func
 	ranges map[*kit.Func]*ruRanges
+	chain  *c14Chain // schedule chain, built on demand (no package-level state: runs may be concurrent)
 }
 
 const ruClientPkg = "client"
@@ -447,4 +448,74 @@ func ruLeaves(e ast.Expr) []ast.Expr {
 		}
 	}
 	return []ast.Expr{e}
+}
+
+// ruMentions reports whether n contains an expression satisfying pred (not
+// descending into function literals).
+func ruMentions(n ast.Node, pred func(ast.Expr) bool) bool {
+	found := false
+	ast.Inspect(n, func(x ast.Node) bool {
+		if found {
+			return false
+		}
+		if _, ok := x.(*ast.FuncLit); ok {
+			return false
+		}
+		if e, ok := x.(ast.Expr); ok && pred(e) {
+			found = true
+			return false
+		}
+		return true
+	})
+	return found
+}
+
+// ruCorr collects the condition leaves (and switch tags) that the run could
+// not interpret although they read the operands the rule quantifies over.
+// Such a leaf is correlated with the valuation, so forking it both ways
+// proves nothing: a mismatch found in such a run is reported as undecided
+// (CHECKER-ERROR), never as a violation.
+type ruCorr struct {
+	f      *kit.Func
+	pred   func(ast.Expr) bool
+	leaves []string
+}
+
+func (rc *ruCorr) add(e ast.Node) {
+	if e == nil || !ruMentions(e, rc.pred) {
+		return
+	}
+	s := "`" + rc.f.Str(e) + "` at " + rc.f.At(e)
+	for _, l := range rc.leaves {
+		if l == s {
+			return
+		}
+	}
+	rc.leaves = append(rc.leaves, s)
+}
+
+func (rc *ruCorr) hook(st *kit.Std) {
+	st.Eval.OnUnknown = func(e ast.Expr) { rc.add(e) }
+}
+
+// tag is to be called for a tagged switch decision the client did not fold.
+func (rc *ruCorr) tag(st *kit.Std, br kit.Branch, s kit.S) {
+	if br.Kind == kit.BrCase && br.Tag != nil {
+		if _, ok := st.FoldExpr(br.Tag, s); !ok {
+			rc.add(br.Tag)
+		}
+	}
+}
+
+func (rc *ruCorr) any() bool { return len(rc.leaves) > 0 }
+
+func (rc *ruCorr) String() string {
+	out := ""
+	for i, l := range rc.leaves {
+		if i > 0 {
+			out += ", "
+		}
+		out += l
+	}
+	return out
 }
